@@ -646,12 +646,12 @@ def alloc_random(g, nb, cm, th, nseq, length, big, many_headers=False):
         alloc_line(g, nb, cm, th, ops)
 
 
-def suite_ple_recursive(g, n):
+def suite_ple_recursive(g, n, ops=('ple', 'pluq', 'echelonize_pluq', 'kernel', 'solve_left')):
     """shapes that enter the block-recursive PLE (and L compression) when PLE_CUTOFF is 8192 words:
     width * nrows > 8192 and ncols > 64, with rank profiles that make r1 a multiple of 64 or not, r2 > 0 etc."""
     rng = g.rng
     for _ in range(n):
-        op = rng.choice(['ple', 'pluq', 'echelonize_pluq', 'kernel', 'solve_left'])
+        op = rng.choice(list(ops))
         c = rng.choice([1100, 1300, 1800, 2100])
         w = (c + 63) // 64
         r = 8192 // w + rng.randint(2, 40)
@@ -868,3 +868,38 @@ def suite_io(g, n):
             r, c = rng.randint(1, 5), rng.randint(1, 200)
             g.add('png_corrupt', '%s %d %d' % (g.mat(r, c, place='o'), rng.choice([1000, 1000, 900, 700, 500, 300, 100, 50, 20, 8]),
                                               rng.choice([-1, -1, rng.randint(8, 120)])))
+
+
+def alloc_blockwise(g, nb, cm, th, nseq):
+    """many simultaneously live headers (several 64-header blocks, optionally beyond the block limit), freed block by
+    block in varying orders, then more allocations: exercises unlink-on-empty, current_cache fix-ups, plain headers"""
+    rng = g.rng
+    for _ in range(nseq):
+        nblocks = rng.choice([2, 3, 3, 4, 5])
+        total = 64 * nblocks + rng.randint(0, 10)
+        if rng.random() < 0.15:
+            total = 64 * (cm + 1) + rng.randint(1, 20)        # cross the block limit: plain-malloc headers
+        ops = ['i.%d.%d' % rng.choice([(1, 1), (2, 70), (0, 3), (1, 130)]) for _ in range(total)]
+        live = list(range(total))
+        # handles are handed out from the highest free slot of the current block: block b holds handles 64b .. 64b+63
+        blocks = [list(range(64 * b, min(64 * b + 64, total))) for b in range((total + 63) // 64)]
+        order = list(range(len(blocks)))
+        rng.shuffle(order)
+        keep_some = rng.random() < 0.5
+        nxt = total
+        for bi in order:
+            hs = blocks[bi][:]
+            rng.shuffle(hs)
+            if keep_some and rng.random() < 0.3:
+                hs = hs[:-1]                                 # leave one header of this block alive
+            ops += ['f.%d' % h for h in hs]
+            for h in hs:
+                live.remove(h)
+            if rng.random() < 0.6:
+                k = rng.randint(1, 70)
+                ops += ['i.1.%d' % rng.randint(1, 90) for _ in range(k)]
+                live += list(range(nxt, nxt + k)); nxt += k
+        if rng.random() < 0.7:
+            rng.shuffle(live)
+            ops += ['f.%d' % h for h in live] + ['c']
+        alloc_line(g, nb, cm, th, ops)
